@@ -108,7 +108,13 @@ static void run_case(Case &c)
     Capture cap; cap.attach(d);
     LoopUD ud_start = {&cap, 1, 0}, ud_end = {&cap, 2, 0};     // each callback has its own user data object
     API("opn2_setLoopEnabled", opn2_setLoopEnabled(d, loop_en ? 1 : 0));
-    API("opn2_setLoopCount", opn2_setLoopCount(d, count_api));
+    // the count in force for the measured playback is set before the load, or only after it (another count was in force at load time),
+    // or only after part of the song has been played with that other count
+    const int late_count = r.chance(0.35) ? 1 + (int)r.below(2) : 0;
+    int decoy_count = 0;
+    if(late_count) { static const int dc[] = {1, 2, 3, 4, -1, 0}; do decoy_count = (int)r.pick(dc); while(decoy_count == count_api); }
+    API("opn2_setLoopCount", opn2_setLoopCount(d, late_count ? decoy_count : count_api));
+    if(late_count) ctx += vfmt("; loop count %d at load time, %d set %s", decoy_count, count_api, late_count == 1 ? "after the load" : "before the restart");
     if(hook_when != 1) { API("opn2_setLoopStartHook", opn2_setLoopStartHook(d, &c09_on_start, &ud_start)); API("opn2_setLoopEndHook", opn2_setLoopEndHook(d, &c09_on_end, &ud_end)); }
     { ExactBuf in(file); API("opn2_openData", rc = opn2_openData(d, in.p, (unsigned long)in.n)); }
     if(rc != 0) { c.violation("oracle:C09:wellformed-file-rejected", vfmt("generated SMF rejected: %s; %s", opn2_errorInfo(d), ctx.c_str())); opn2_close(d); return; }
@@ -121,16 +127,19 @@ static void run_case(Case &c)
         if(rc != 0) { c.violation("oracle:C09:wellformed-file-rejected", vfmt("second load rejected: %s", opn2_errorInfo(d))); opn2_close(d); return; }
     }
     cap.clear();
+    if(late_count == 1) { API("opn2_setLoopCount", opn2_setLoopCount(d, count_api)); count("loop_count_set_after_the_load"); }
 
     // optional pre-history on the same instance: play the song (to its end, or part of it incl. jumps), then rewind or seek to 0;
     // the measured playback below must then behave like the first one (passes left, callbacks, loop start)
     {
         int prehist = (int)r.below(5);
+        if(late_count == 2 && prehist == 0) { API("opn2_setLoopCount", opn2_setLoopCount(d, count_api)); count("loop_count_set_after_the_load"); }
         if(prehist == 4)
         {   // a seek into the tail of the song (behind the last event, inside the reported length), then rewind
             double len0 = 0; API("opn2_totalTimeLength", len0 = opn2_totalTimeLength(d));
             double tgt = len0 - 0.05 - r.unit() * 0.9; if(tgt < 0) tgt = 0;
             API("opn2_positionSeek", opn2_positionSeek(d, tgt));
+            if(late_count == 2) { API("opn2_setLoopCount", opn2_setLoopCount(d, count_api)); count("loop_count_set_before_the_restart"); }
             API("opn2_positionRewind", opn2_positionRewind(d));
             ctx += vfmt("; pre-history: seek to %.3f of %.3f s (tail) then rewind", tgt, len0);
             count("prehistory_tail_seek_then_rewind");
@@ -148,6 +157,7 @@ static void run_case(Case &c)
                 acc += dly; dly = nd;
                 int e0 = 0; API("opn2_atEnd", e0 = opn2_atEnd(d)); if(e0) { end0 = true; break; }
             }
+            if(late_count == 2) { API("opn2_setLoopCount", opn2_setLoopCount(d, count_api)); count("loop_count_set_before_the_restart"); }
             if(prehist == 3) API("opn2_positionSeek", opn2_positionSeek(d, 0.0)); else API("opn2_positionRewind", opn2_positionRewind(d));
             ctx += vfmt("; pre-history: %s then %s", whole ? (end0 ? "played to the end" : "played (no end reached)") : vfmt("played %.3f s", acc).c_str(), prehist == 3 ? "seek(0)" : "rewind");
             count(prehist == 3 ? "prehistory_then_seek0" : "prehistory_then_rewind");
